@@ -1,5 +1,6 @@
 import GqlModel.Pipeline
 import GqlProofs.Cost
+import GqlProofs.CostDepth
 /-! # C09 — No input makes a public entry point panic, hang or return a malformed result
 
 Property theorems only. Two models:
@@ -18,11 +19,17 @@ What is PROVED here (about the models): the two result-shape clauses for every c
 (`no_data_on_parse_or_validation_failure`, `error_when_no_data`, `planResult_plan_xor_errors`); that the pipeline model
 has no panic outcome once `PlanQuery` does not panic (`do_never_panics` — Lean functions are total, so this covers only the
 MODEL's explicit panic outcome, i.e. the class of D-09c); termination of plan-time collection on arbitrary, also
-cyclic, fragment tables with an explicit fuel bound (`plan_total_on_cyclic_fragments`), and that the planning work of an
-execution is bounded by the completions the data causes and the selection (`exec_bounded_by_world_and_selection`).
+cyclic, fragment tables with an explicit fuel bound (`plan_total_on_cyclic_fragments`), that the planning work of an
+execution is bounded by the completions the data causes and the selection (`exec_bounded_by_world_and_selection`), and
+that the DEPTH of execution is bounded by the selection alone, whatever the data (`exec_depth_bounded_by_selection`,
+the formal content of repair D-09d).
 Termination theorems proved by other workers and only REFERENCED here (not re-proved, not imported, so that this module
-does not break when theirs are in flux): lexer progress and parser progress with fuel `|bytes| + 1` (C03: `Props/C03Lexer`,
-`Props/C03Parser`), fragment-cycle DFS fuel bound and overlap memo bound (C02 / c02b: `GqlModel/Validate/*`).
+does not break when theirs are in flux): `lex_progress`, `lexAll_terminates` (Props/C03Lexer: the lexer consumes input,
+fuel `|bytes| + 1`), `parse_progress`, `parseValue_progress`, `parseType_progress`, `parseSelectionSet_progress`
+(Props/C03Parser: the parser never runs out of fuel `|tokens| + 1`), `fuel_bound_coerceValue`, `fuel_bound_isValidInputValue`,
+`fuel_bound_valueFromAST` … (Props/C05: variable / literal coercion terminates within the depth of the value),
+`collect_fuel_sufficient` (Props/C01: run-time field collection), the fragment-cycle DFS fuel bound (Props/C02Graph) and
+the overlap rule's `memo_body_at_most_once` bound (c02b, GqlModel/Validate/Overlap.lean).
 What is only SAMPLED (harness/cmd/c09): Go-level nil dereferences, type assertions, reflection, blocking, JSON
 serialisability, wall-clock bounds — on the real entry points. -/
 namespace GqlModel.Pipeline
@@ -149,6 +156,37 @@ theorem exec_bounded_by_world_and_selection (e : Env) (fields : List FieldPlan) 
   have h2 := completedW_length e world fields []
   simp only [List.length_map] at h1
   omega
+
+/-- T1 (the formal content of repair D-09d). With the descent-path guard the DEPTH of execution is bounded by the
+selection alone, whatever the data: for every environment (any schema, any fragment table — cyclic, duplicate names —,
+any variables), every operation selection set and every world, each response path along which an object value is
+completed (and hence each lazily planned sub-selection) has length at most
+`1 + depth(selection set) + (deepest fragment body + 1) × (number of fragment definitions)`.
+Before the repair a fragment cycle through a field made this depth depend on the data only (D-09d: unbounded on the
+cyclic introspection graph). -/
+theorem exec_depth_bounded_by_selection (e : Env) (root : String) (ss : SelectionSet) (world : World) :
+    ∀ id ∈ completedW e (rootPlan e root ss).fields [] world,
+      id.length ≤ 1 + depthSet ss + (maxBodyDepth e.frags + 1) * e.frags.length := by
+  have hgood : GoodChain e.frags [] := ⟨List.nodup_nil, fun _ h => by simp at h⟩
+  have hnew := collectFuel_depth (e.ctx root) (fuelFor (e.ctx root)) [] ss {} hgood
+  have hsub : SubsBelow e.frags (depthSet ss + slack e.frags []) (rootPlan e root ss).fields := by
+    intro fp hfp s hs
+    rcases hnew fp hfp s hs with ⟨fp0, h0, _⟩ | h
+    · simp at h0
+    · exact h
+  intro id hid
+  have := completedW_depth e world _ [] _ hsub id hid
+  simp only [slack, List.length_nil, Nat.sub_zero] at this
+  omega
+
+/-- … in particular every sub-selection an execution plans lazily sits at such a bounded path. -/
+theorem lazy_plans_at_bounded_depth (e : Env) (root : String) (ss : SelectionSet) (world : World) :
+    ∀ en ∈ (execW e (rootPlan e root ss).fields [] world {}).log,
+      en.id.length ≤ 1 + depthSet ss + (maxBodyDepth e.frags + 1) * e.frags.length := by
+  intro en hen
+  rcases execW_mem e world _ _ _ en hen with h | h
+  · simp at h
+  · exact exec_depth_bounded_by_selection e root ss world en.id h
 
 /-! ## Non-vacuity -/
 
